@@ -1,7 +1,7 @@
 (* Property theorems for C15 -- statements only; proofs are `exact` of lemmas
    from C15/OrderProofs.v, C15/NameTableProofs.v, C15/Witness.v. *)
 From Coq Require Import List NArith ZArith Bool Sorting.Sorted.
-From GD Require Import C15.Order C15.OrderProofs C15.NameTable C15.NameTableProofs C15.StructProofs C15.StructOps C15.Witness.
+From GD Require Import C15.Order C15.OrderProofs C15.NameTable C15.NameTableProofs C15.StructProofs C15.StructOps C15.CacheProofs C15.Witness.
 Import ListNotations.
 
 (* --- the (length, bytes) order of _GD_EntryCmp is a strict total order --- *)
@@ -93,18 +93,29 @@ Proof.
   destruct I as (SS & _). cbv zeta. repeat split; auto. apply sorted_ok_iff. exact SS.
 Qed.
 
+(* --- cached lists are current: "cache valid => cached list = recomputed list" --- *)
+(* CC s: every valid cached list of D->fl and of every E->e->fl equals the list computed from the table now.
+   It holds initially and is preserved by EVERY operation of the model -- gd_alter_affixes and colliding
+   renames included -- given the structural invariant. *)
+Theorem cache_init : CC init_state.
+Proof. exact CC_init. Qed.
+Theorem cache_step : forall c s o, InvAll s -> CC s -> CC (fst (step c s o)).
+Proof. exact CC_step. Qed.
+Theorem cache_run : forall c ops s, InvAll s -> CC s -> run_in_scope c s ops -> InvAll (run c s ops) /\ CC (run c s ops).
+Proof. exact CC_run. Qed.
+Theorem cache_executable_check : forall s, CC s -> cache_consistent s = true.
+Proof. exact CC_cache_consistent. Qed.
+(* gd_nentries equals the length of what gd_entry_list returns, whether it comes from the cache or not *)
+Theorem nentries_is_length_of_entry_list : forall s parent sel flags names,
+  InvAll s -> CC s -> snd (op_list s parent sel flags) = RList names ->
+  nentries s parent sel flags = Some (length names).
+Proof. exact entry_list_length_is_nentries. Qed.
+
 (* gd_nentries = length of the (freshly computed) gd_entry_list, all parents/selectors/flags *)
 Theorem counts_agree : forall s parent sel flags par,
   find_parent (s_ents s) parent = Some par ->
   nentries s parent sel flags = Some (length (compute_list (s_ents s) par sel flags)).
 Proof. exact counts_agree_fresh. Qed.
-
-(* --- still refuted on the tree as it stands --- *)
-Theorem inv_step_refuted_cross_container_cache : exists s o, inv_full s = true /\ cache_consistent (fst (step pinned s o)) = false.
-Proof. exists (w_xcache_pre pinned), w_xcache_op. pose proof w_xcache; tauto. Qed.
-(* with the proposed repair C15-19 the witness keeps the full invariant *)
-Theorem proposed_repair_closes_cache_witness : inv_full (fst (step fixed (w_xcache_pre fixed) w_xcache_op)) = true.
-Proof. pose proof w_xcache; tauto. Qed.
 
 (* --- regression: the ten sequences that broke the invariant before the repairs in /repo --- *)
 Theorem repaired_witnesses_keep_full_invariant :
@@ -122,8 +133,9 @@ Theorem repaired_witnesses_keep_full_invariant :
   inv_full (fst (step pinned (w_deref_pre pinned) w_deref_op)) = true /\
   snd (step pinned (w_dup_pre pinned) w_dup_op) = RInt E_DUPLICATE /\
   inv_full (fst (step pinned (w_inter_pre pinned) w_inter_op)) = true /\
-  inv_full (fst (step pinned (w_dotpar_pre pinned) w_dotpar_op)) = true.
+  inv_full (fst (step pinned (w_dotpar_pre pinned) w_dotpar_op)) = true /\
+  inv_full (fst (step pinned (w_xcache_pre pinned) w_xcache_op)) = true.
 Proof.
-  pose proof w_inter; pose proof w_dotpar; pose proof w_stale; pose proof w_deref; pose proof w_dup; pose proof w_delref; pose proof w_hide; pose proof w_affix; pose proof w_delmeta; pose proof w_rencache;
+  pose proof w_xcache; pose proof w_inter; pose proof w_dotpar; pose proof w_stale; pose proof w_deref; pose proof w_dup; pose proof w_delref; pose proof w_hide; pose proof w_affix; pose proof w_delmeta; pose proof w_rencache;
   pose proof w_renref; pose proof w_spec; pose proof w_parent; pose proof w_malias; pose proof w_loop. tauto.
 Qed.
